@@ -29,6 +29,9 @@ CHECKS.update({
  "C02": ("exploration","differential runtime monitor: the same generated query sent to six storage/compiler configurations of the same generated file, full canonical responses compared",
          "Compiles each generated data file to CDB (1/16 workers, read with combined and per-family prefix sets) and to RocksDB v1/v2 through the builder and through batches with different sizes/parallelism, loads all six into real handlers and compares the complete canonical responses (every section, OPT/ECS and scope) for generated queries including DS, ANY, CH, EDNS variants, TCP, located and hostile ECS clients. No model is involved, so it also covers what C01's oracle leaves open.",
          "A defect shared by all configurations is invisible here (C01 covers that). Randomised address selection is neutralised with max-answer >= candidates; additional addresses compared by owner+family.","4/C02"),
+ "C13": ("exploration","runtime monitor with recover/pack/unpack oracle over seeded hostile wire-valid messages on every database layout and backend",
+         "Feeds seeded hostile messages (all survive a pack/unpack round trip first) to real handlers loaded with generated databases of every layout (root zone, root delegation, TLD zone, empty file, ...) on CDB and RocksDB v1/v2 through UDP and TCP writers; each call must return without panic, write at most one message that packs, unpacks, has QR, the query's id and first question, fits the advertised size or has TC, and is BADVERS for EDNS version != 0; a twin query without private-use options must get the same reply.",
+         "Go panics are recovered in-process; a fatal runtime error would abort the check (exit != 0). Only messages miekg/dns can pack are generated.","4/C13"),
 })
 BUILT = set(CHECKS)
 ALL = [json.loads(l)["id"] for l in open("properties.jsonl")]
